@@ -2,7 +2,7 @@
 (***************************************************************************)
 (* C14 monitor (total): judges what the REAL converter did with every      *)
 (* (union, payload) pair against UnionCodec!ChooseVariant.                 *)
-(*   trace == [id, u : union, cases : Seq([cid, p]),                       *)
+(*   trace == [id, u : union, cases : Seq([cid, p]),   (+ fresh, see below) *)
 (*             obs : Seq([cid, pos, out, chosen, ckind, reenc, ekind])]    *)
 (* cases[i].cid = i.  One VERDICT line per trace: every failing            *)
 (* observation with its clause and locus, how often each clause's          *)
@@ -22,9 +22,16 @@ CaseRec(t, c) ==
       m == ImplChoose(p, t.u)
   IN [e |-> e, m |-> m, vm |-> JudgeE(p, t.u, m, e)]
 
-ObsRec(t, o, cr) ==
-  LET p == t.cases[o.cid].p
-      v == JudgeE(p, t.u, o, cr.e)
+\* A trace with a field `fresh` is a HISTORY trace: `obs` was recorded after another union with the same discriminator
+\* table (but other variant classes) had been decoded through the same converter module, `fresh[i]` is the outcome of
+\* the same decode in a fresh process.  HistoryIndependent: they are the same outcome (C14.history_dependent).
+HasFresh(t) == "fresh" \in DOMAIN t
+
+ObsRec(t, i, cr) ==
+  LET o == t.obs[i]
+      p == t.cases[o.cid].p
+      v0 == JudgeE(p, t.u, o, cr.e)
+      v == IF v0 = "ok" /\ HasFresh(t) /\ ~SameOutcome(o, t.fresh[i]) THEN "C14.history_dependent" ELSE v0
       m == cr.m
       \* the code-shaped model and the observation disagree on outcome class, produced variant or verdict
       d == \/ m.out # o.out
@@ -38,9 +45,9 @@ ObsRec(t, o, cr) ==
 
 Verdict(t) ==
   LET crs  == [c \in 1..Len(t.cases) |-> CaseRec(t, c)]
-      recs == [i \in 1..Len(t.obs) |-> ObsRec(t, t.obs[i], crs[t.obs[i].cid])]
+      recs == [i \in 1..Len(t.obs) |-> ObsRec(t, i, crs[t.obs[i].cid])]
       n(P(_)) == Cardinality({i \in 1..Len(t.obs) : P(crs[t.obs[i].cid].e)})
-  IN [id |-> t.id, nobs |-> Len(t.obs),
+  IN [id |-> t.id, nobs |-> Len(t.obs), n_hist |-> IF HasFresh(t) THEN Len(t.obs) ELSE 0,
       fails |-> SelectSeq(recs, LAMBDA r : r.clause # "ok"),
       drift |-> SelectSeq(recs, LAMBDA r : r.drift),
       n_value |-> n(LAMBDA e : e.exp = "value"),
